@@ -313,6 +313,62 @@ theorem iter_not_maximal_counterexample :
     iterRanges (compile [⟨48, 49, 1⟩, ⟨49, 50, 0⟩]) = some [(0, 49, 1), (49, 50, 1), (50, charMax, 1)] := by
   decide
 
+/-- **The classes the analyser gets (seeded round e).**  `InputBuffer::build` is the only place where the analyser
+asks for the classes of the characters of a text.  For every definition file that loads and EVERY text: `build` does
+not panic, its category column `mod_cat` has one entry per character, and `cat_at_char(i)` reports exactly the union of
+the classes of the lines covering the i-th character (DEFAULT when none) - a function of that character and the file
+alone, independent of the other characters of the text and of the position. -/
+theorem buffer_categories_eq_union (bytes : List Nat) (rs : List CatRange) (h : readDef bytes = .ok rs)
+    (text : List Nat) :
+    ∃ mc, bufferCats (compile rs) text = some mc ∧ mc.length = text.length ∧
+      ∀ (i : Nat) (hi : i < text.length), catAtChar mc i = some (spec rs text[i]) := by
+  refine ⟨text.map (spec rs), bufferCats_eq_map _ _ (loaded_file_lookup bytes rs h) text, by simp, ?_⟩
+  intro i hi
+  simp [catAtChar, hi]
+
+/-- corollary, the independence spelled out: the same character in two texts (or at two positions of one text) built
+with the same loaded file is reported with the same classes -/
+theorem buffer_categories_context_independent (bytes : List Nat) (rs : List CatRange) (h : readDef bytes = .ok rs)
+    (t₁ t₂ mc₁ mc₂ : List Nat) (h₁ : bufferCats (compile rs) t₁ = some mc₁) (h₂ : bufferCats (compile rs) t₂ = some mc₂)
+    (i j : Nat) (hi : i < t₁.length) (hj : j < t₂.length) (heq : t₁[i] = t₂[j]) :
+    catAtChar mc₁ i = catAtChar mc₂ j := by
+  obtain ⟨m₁, e₁, _, a₁⟩ := buffer_categories_eq_union bytes rs h t₁
+  obtain ⟨m₂, e₂, _, a₂⟩ := buffer_categories_eq_union bytes rs h t₂
+  rw [h₁] at e₁; rw [h₂] at e₂
+  cases e₁; cases e₂
+  rw [a₁ i hi, a₂ j hj, heq]
+
+/-- `cat_of_range(s..e)` on a built buffer: for a non-empty range inside the text no panic, and the classes common
+to the unions of the covering lines of the characters `s..e` (fold of `&` from `CategoryType::all()`); for the
+one-character range `i..i+1` that is `ALL_BITS &&& (classes of character i)` -/
+theorem buffer_range_eq_common (bytes : List Nat) (rs : List CatRange) (h : readDef bytes = .ok rs)
+    (text mc : List Nat) (hb : bufferCats (compile rs) text = some mc) (s e : Nat) (hse : s < e) (he : e ≤ text.length) :
+    catOfRange mc s e = some ((((text.drop s).take (e - s)).map (spec rs)).foldl (fun a b => a &&& b) ALL_BITS) := by
+  have hm := bufferCats_eq_map _ _ (loaded_file_lookup bytes rs h) text
+  rw [hb] at hm
+  cases hm
+  have h1 : ¬ e ≤ s := by omega
+  have h2 : ¬ (text.map (spec rs)).length < e := by simp; omega
+  simp only [catOfRange, h1, h2, if_false]
+  rw [← List.map_drop, ← List.map_take]
+
+/-- non-vacuity of the buffer theorems and the seeded change of round e in the kernel: with `0x41..0x5A ALPHA` and
+`0x20000..0x2A6DF KANJI` the text `A U+20041` reports ALPHA then KANJI, the reversed text KANJI then ALPHA (a cache
+keyed by the low 16 bits of the code point would answer ALPHA, ALPHA / KANJI, KANJI); the empty text; a range query -/
+example :
+    bufferCats (compile [⟨0x41, 0x5B, 32⟩, ⟨0x20000, 0x2A6E0, 4⟩]) [0x41, 0x20041] = some [32, 4] ∧
+    bufferCats (compile [⟨0x41, 0x5B, 32⟩, ⟨0x20000, 0x2A6E0, 4⟩]) [0x20041, 0x41, 0x141, 0x20041] = some [4, 32, 1, 4] ∧
+    bufferCats (compile [⟨0x41, 0x5B, 32⟩, ⟨0x20000, 0x2A6E0, 4⟩]) [] = some [] ∧
+    catAtChar [32, 4] 1 = some 4 ∧ catAtChar [32, 4] 2 = none ∧
+    catOfRange [36, 4, 32] 0 2 = some 4 ∧ catOfRange [36, 4, 32] 0 3 = some 0 ∧ catOfRange [36, 4, 32] 2 2 = some 0 ∧
+    catOfRange [36, 4, 32] 2 4 = none := by
+  refine ⟨by decide, by decide, by decide, by decide, by decide, by decide, by decide, by decide, by decide⟩
+
+/-- non-vacuity of the hypothesis `readDef bytes = .ok rs` together with a text: the file `0x30 0x4` + LF -/
+example : ∃ rs mc, readDef [0x30, 0x78, 0x33, 0x30, 0x20, 0x30, 0x78, 0x34, 0x0A] = .ok rs ∧
+    bufferCats (compile rs) [0x30, 0x10030, 0x30] = some mc ∧ mc = [4, 1, 4] :=
+  ⟨[⟨48, 49, 4⟩], [4, 1, 4], by rfl, by decide, rfl⟩
+
 /-- non-vacuity of the reader theorems: lines in every accepted spelling, refused lines with their error -/
 example :
     parseLine "0x0030..0x0039 NUMERIC".toList = .ok (some ⟨48, 58, 16⟩) ∧
